@@ -25,23 +25,34 @@ EXTENDS Integers, Sequences, FiniteSets
 \* m : member        meta | state | sums | x (unexpected name) | -
 \* d : damage        ok | flip | neutral | cut
 \*     "neutral" exists only for the content of SHA256SUMS: bytes changed but the
-\*     listing still decodes to the same (name, digest) pairs (hex letter case,
-\*     whitespace after the last line).  "flip" on that region = listing damaged.
-R(k, m, d) == [k |-> k, m |-> m, d |-> d]
+\*     listing still decodes to the same lines (hex letter case, white space).
+\* ls: only for the content of SHA256SUMS: the checksum LINES it decodes to, in order.
+\*     A line is [n, dg]: n = member it names (meta | state | x = anything else, also an
+\*     unparseable line), dg = ok (the SHA-256 of that member as it was saved) | wrong.
+R(k, m, d) == [k |-> k, m |-> m, d |-> d, ls |-> <<>>]
+Ln(n, dg) == [n |-> n, dg |-> dg]
+Junk == Ln("x", "wrong")
 Triple(m) == <<R("hdr", m, "ok"), R("content", m, "ok"), R("pad", m, "ok")>>
 Eoa == R("eoa", "-", "ok")
+Other(n) == IF n = "meta" THEN "state" ELSE "meta"
+\* hashList.Encode ranges over a Go map: either member may be listed first
+SumsTriple(first) == <<R("hdr", "sums", "ok"),
+                       [R("content", "sums", "ok") EXCEPT !.ls = <<Ln(first, "ok"), Ln(Other(first), "ok")>>],
+                       R("pad", "sums", "ok")>>
 
 \* archive.go write(): meta.json, state.bin, SHA256SUMS, then tar.Writer.Close
-ValidTar == Triple("meta") \o Triple("state") \o Triple("sums") \o <<Eoa>>
+ValidTarF(first) == Triple("meta") \o Triple("state") \o SumsTriple(first) \o <<Eoa>>
+ValidTar == ValidTarF("meta")
 \* snapshot.go New(): gzip.NewWriter around write()
 ValidGz == <<R("gzhdr", "-", "ok"), R("deflate", "-", "ok"), R("gztrl", "-", "ok")>>
 
 \* empty = the state payload has length 0 (its content and pad regions hold no bytes)
-Valid(wrap, empty) ==
-  [wrap |-> wrap, empty |-> empty, tar |-> ValidTar,
+ValidF(wrap, empty, first) ==
+  [wrap |-> wrap, empty |-> empty, first |-> first, tar |-> ValidTarF(first),
    gz |-> IF wrap = "gz" THEN ValidGz ELSE <<>>,
    trunc |-> FALSE,      \* the tar stream has been cut: no structural fault afterwards
    gzphase |-> FALSE]    \* a fault hit the compressed bytes: no tar-level fault afterwards
+Valid(wrap, empty) == ValidF(wrap, empty, "meta")
 
 \* ---------------------------------------------------------------- faults
 Fault(t, i, src, k, m, fx, perm) == [t |-> t, i |-> i, src |-> src, k |-> k, m |-> m, fx |-> fx, perm |-> perm]
@@ -53,15 +64,44 @@ Range(s) == {s[i] : i \in DOMAIN s}
 Swaps(n) == {[x \in 1..n |-> IF x = p[1] THEN p[2] ELSE IF x = p[2] THEN p[1] ELSE x] : p \in {q \in (1..n) \X (1..n) : q[1] < q[2]}}
 Perms(n) == IF n = 3 THEN Swaps(3) \cup {<<2, 3, 1>>, <<3, 1, 2>>} ELSE Swaps(n)
 
-\* Flip(region): one byte of the region is XOR-ed with a non-zero pattern
+IsSums(r) == r.k = "content" /\ r.m = "sums"
+RemoveAt(q, j) == SubSeq(q, 1, j - 1) \o SubSeq(q, j + 1, Len(q))
+InsertAfter(q, j, x) == SubSeq(q, 1, j) \o <<x>> \o SubSeq(q, j + 1, Len(q))
+
+\* Flip(region): one byte of the region is XOR-ed with a non-zero pattern.  Inside SHA256SUMS the
+\* flip is labelled with its effect on the decoded lines (reference decoder in the harness):
+\*   neutral         same lines          wrong(j)  line j keeps its name, digest no longer the saved one
+\*   x(j)            line j no longer names an expected member / does not parse
+\*   ok(j)           a wrong digest of line j becomes the saved one again
+\*   drop(j)         line j disappears (the line feed before it became other white space)
+SumsFlipFaults(i, r) ==
+     {Fault("flip", i, 0, r.k, r.m, "neutral", <<>>)}
+  \cup {Fault("flip", i, j, r.k, r.m, "wrong", <<>>) : j \in {x \in 1..Len(r.ls) : r.ls[x].n # "x" /\ r.ls[x].dg = "ok"}}
+  \cup {Fault("flip", i, j, r.k, r.m, "x", <<>>) : j \in {x \in 1..Len(r.ls) : r.ls[x].n # "x"}}
+  \cup {Fault("flip", i, j, r.k, r.m, "ok", <<>>) : j \in {x \in 1..Len(r.ls) : r.ls[x].n # "x" /\ r.ls[x].dg = "wrong"}}
+  \cup {Fault("flip", i, j, r.k, r.m, "drop", <<>>) : j \in 2..Len(r.ls)}
 FlipFaults(a) ==
   UNION {LET r == a.tar[i] IN
          IF r.d = "cut" THEN {}
-         ELSE IF r.k = "content" /\ r.m = "sums"
-              THEN (IF r.d = "flip" THEN {} ELSE {Fault("flip", i, 0, r.k, r.m, "neutral", <<>>)})
-                   \cup {Fault("flip", i, 0, r.k, r.m, "damaging", <<>>)}
-              ELSE {Fault("flip", i, 0, r.k, r.m, "", <<>>)}
+         ELSE IF IsSums(r) THEN SumsFlipFaults(i, r)
+         ELSE {Fault("flip", i, 0, r.k, r.m, "", <<>>)}
          : i \in 1..Len(a.tar)}
+\* Faults on the LINES of SHA256SUMS (the member is re-framed: size field, header checksum and
+\* padding are those of a well-formed member with the new text), on an untouched member only:
+\*   dup(j)       line j written twice            copy(j<-k)  line j replaced by a copy of line k
+\*   swap(j,k)    two lines exchanged             drop(j)     line j removed
+\*   addx         a line for a file that is not in the archive appended
+\*   addwrong(j)  a second line for the member of line j, with a different digest, appended
+LineFaults(a) ==
+  UNION {LET r == a.tar[i]  n == Len(r.ls) IN
+         IF ~(IsSums(r) /\ r.d = "ok" /\ a.tar[i - 1].d = "ok" /\ a.tar[i + 1].d = "ok") THEN {}
+         ELSE {Fault("sumsline", i, j, r.k, r.m, "dup", <<>>) : j \in 1..n}
+         \cup {Fault("sumsline", i, p[1], r.k, r.m, "copy", <<p[2]>>) : p \in {q \in (1..n) \X (1..n) : r.ls[q[1]] # r.ls[q[2]]}}
+         \cup {Fault("sumsline", i, p[1], r.k, r.m, "swap", <<p[2]>>) : p \in {q \in (1..n) \X (1..n) : q[1] < q[2] /\ r.ls[q[1]] # r.ls[q[2]]}}
+         \cup {Fault("sumsline", i, j, r.k, r.m, "drop", <<>>) : j \in 1..n}
+         \cup {Fault("sumsline", i, 0, r.k, r.m, "addx", <<>>)}
+         \cup {Fault("sumsline", i, j, r.k, r.m, "addwrong", <<>>) : j \in {x \in 1..n : r.ls[x].n # "x"}}
+         : i \in 2..(Len(a.tar) - 1)}
 \* Truncate inside region i (at least one byte of it kept, at least one dropped)
 TruncInFaults(a) == {Fault("truncin", i, 0, a.tar[i].k, a.tar[i].m, "", <<>>) : i \in {j \in 1..Len(a.tar) : a.tar[j].d # "cut"}}
 \* Truncate at the boundary after region i (i = 0: empty file); label = first region dropped
@@ -80,7 +120,7 @@ GzTruncAtFaults(a) == {Fault("gztruncat", i, 0, a.gz[i + 1].k, "-", "", <<>>) : 
 Faults(a) ==
      (IF a.gzphase THEN {} ELSE
         FlipFaults(a) \cup TruncInFaults(a) \cup TruncAtFaults(a)
-        \cup (IF a.trunc THEN {} ELSE RemoveFaults(a) \cup ReorderFaults(a) \cup InjectFaults(a)))
+        \cup (IF a.trunc THEN {} ELSE RemoveFaults(a) \cup ReorderFaults(a) \cup InjectFaults(a) \cup LineFaults(a)))
   \cup (IF a.wrap = "gz" THEN GzFlipFaults(a) \cup GzTruncInFaults(a) \cup GzTruncAtFaults(a) ELSE {})
 
 SetD(s, i, d) == [s EXCEPT ![i] = [@ EXCEPT !.d = d]]
@@ -88,9 +128,24 @@ Concat(gs, n) == LET RECURSIVE C(_) C(j) == IF j > n THEN <<>> ELSE gs[j] \o C(j
 
 Apply(a, f) ==
   CASE f.t = "flip" ->
+         LET r == a.tar[f.i] IN
+         IF ~IsSums(r) THEN [a EXCEPT !.tar = SetD(a.tar, f.i, "flip")]
+         ELSE LET ls2 == CASE f.fx = "wrong" -> [r.ls EXCEPT ![f.src] = Ln(@.n, "wrong")]
+                           [] f.fx = "x"     -> [r.ls EXCEPT ![f.src] = Junk]
+                           [] f.fx = "ok"    -> [r.ls EXCEPT ![f.src] = Ln(@.n, "ok")]
+                           [] f.fx = "drop"  -> RemoveAt(r.ls, f.src)
+                           [] OTHER          -> r.ls
+                  d2  == IF f.fx = "neutral" THEN (IF r.d = "ok" THEN "neutral" ELSE r.d) ELSE "flip"
+              IN [a EXCEPT !.tar = [a.tar EXCEPT ![f.i] = [r EXCEPT !.d = d2, !.ls = ls2]]]
+    [] f.t = "sumsline" ->
          LET r == a.tar[f.i]
-             d == IF r.k = "content" /\ r.m = "sums" /\ f.fx = "neutral" /\ r.d # "flip" THEN "neutral" ELSE "flip"
-         IN [a EXCEPT !.tar = SetD(a.tar, f.i, d)]
+             ls2 == CASE f.fx = "dup"      -> InsertAfter(r.ls, f.src, r.ls[f.src])
+                      [] f.fx = "copy"     -> [r.ls EXCEPT ![f.src] = r.ls[f.perm[1]]]
+                      [] f.fx = "swap"     -> [r.ls EXCEPT ![f.src] = r.ls[f.perm[1]], ![f.perm[1]] = r.ls[f.src]]
+                      [] f.fx = "drop"     -> RemoveAt(r.ls, f.src)
+                      [] f.fx = "addx"     -> Append(r.ls, Junk)
+                      [] OTHER             -> Append(r.ls, Ln(r.ls[f.src].n, "wrong"))
+         IN [a EXCEPT !.tar = [a.tar EXCEPT ![f.i] = [r EXCEPT !.ls = ls2]]]
     [] f.t = "truncin" -> [a EXCEPT !.tar = SetD(SubSeq(a.tar, 1, f.i), f.i, "cut"), !.trunc = TRUE]
     [] f.t = "truncat" -> [a EXCEPT !.tar = SubSeq(a.tar, 1, f.i), !.trunc = TRUE]
     [] f.t = "remove"  -> [a EXCEPT !.tar = SubSeq(a.tar, 1, 3 * f.i - 3) \o SubSeq(a.tar, 3 * f.i + 1, Len(a.tar))]
@@ -117,7 +172,8 @@ Incomplete(a, i) ==
   \/ t[i].d = "cut"
   \/ (HasContent(t, i) /\ t[i + 1].d = "cut")
   \/ (~HasContent(t, i) /\ ~(a.empty /\ t[i].m = "state"))
-SumsContents(t) == {i \in 1..Len(t) : t[i].k = "content" /\ t[i].m = "sums"}
+Readable(t) == {i \in 1..Len(t) : IsSums(t[i]) /\ t[i].d # "cut"}
+Listed(t, m) == \E i \in Readable(t) : \E j \in 1..Len(t[i].ls) : t[i].ls[j] = Ln(m, "ok")
 
 \* Why the statement demands rejection (empty set: it does not)
 Reasons(a) ==
@@ -129,14 +185,16 @@ Reasons(a) ==
   \cup (IF "x" \in Names(t) THEN {"unexpected-member"} ELSE {})                             \* contains an unexpected member
   \cup (IF \E i \in 1..Len(t) : t[i].k = "content" /\ t[i].m = "meta" /\ t[i].d = "flip" THEN {"altered:meta"} ELSE {})
   \cup (IF \E i \in 1..Len(t) : t[i].k = "content" /\ t[i].m = "state" /\ t[i].d = "flip" THEN {"altered:state"} ELSE {})
-  \* every copy of the checksum list is damaged: the archive lacks a (correct) checksum
-  \cup (IF SumsContents(t) # {} /\ \A i \in SumsContents(t) : t[i].d = "flip" THEN {"checksums-damaged"} ELSE {})
+  \* no (complete) copy of the checksum list has a line with the saved digest of the member:
+  \* the archive lacks that member's checksum, the member is unprotected
+  \cup (IF Readable(t) # {} /\ ~Listed(t, "meta") THEN {"lacks-checksum:meta"} ELSE {})
+  \cup (IF Readable(t) # {} /\ ~Listed(t, "state") THEN {"lacks-checksum:state"} ELSE {})
   \* GzTrailerRequired (named strengthening, RFC 1952): a gzip member whose CRC32/ISIZE trailer is
   \* missing, incomplete or altered is corrupt; whatever was decoded before is tentative
   \cup (IF a.wrap = "gz" /\ (Len(a.gz) < 3 \/ \E i \in 1..Len(a.gz) : a.gz[i].d = "cut") THEN {"gz-cut"} ELSE {})
   \cup (IF a.wrap = "gz" /\ Len(a.gz) = 3 /\ a.gz[3].d = "flip" THEN {"gz-trailer-altered"} ELSE {})
 
-Pristine(a) == a.tar = ValidTar /\ a.gz = (IF a.wrap = "gz" THEN ValidGz ELSE <<>>)
+Pristine(a) == a.tar = ValidTarF(a.first) /\ a.gz = (IF a.wrap = "gz" THEN ValidGz ELSE <<>>)
 
 \* MustReject       : rejected, never handed to restore
 \* MustAcceptSame   : accepted, extracted state byte-identical, metadata equal
@@ -159,18 +217,23 @@ RS0 == [metaIn |-> <<>>, snapOut |-> <<>>, sha |-> <<>>]
 
 \* hashList.DecodeAndVerify after the tar loop ended with io.EOF
 Done(a, s, tracks) ==
-  LET listed  == Len(s.sha) > 0 /\ \A j \in 1..Len(s.sha) : s.sha[j] # "flip"     \* every line parses and matches a registered hash
-      metaOK  == s.metaIn = <<"ok">>                                               \* meta.json is never empty
+  LET metaOK  == s.metaIn = <<"ok">>                                               \* meta.json is never empty
       stateOK == (\A j \in 1..Len(s.snapOut) : s.snapOut[j] = "ok") /\ (Len(s.snapOut) = 1 \/ a.empty)
+      hashOK(n) == IF n = "meta" THEN metaOK ELSE stateOK
+      \* every line must name a registered hash and carry exactly the digest of what was read ...
+      linesOK == \A j \in 1..Len(s.sha) : s.sha[j].n # "x" /\ s.sha[j].dg = "ok" /\ hashOK(s.sha[j].n)
+      \* ... and every registered hash must have been listed ("file missing for")
+      listed  == \A n \in {"meta", "state"} : \E j \in 1..Len(s.sha) : s.sha[j].n = n
       seen    == ~tracks \/ (Len(s.snapOut) >= 1 /\ Len(s.metaIn) >= 1)
-  IN IF listed /\ metaOK /\ stateOK /\ seen
+  IN IF linesOK /\ listed /\ metaOK /\ stateOK /\ seen
      THEN [res |-> "accepted", state |-> s.snapOut, meta |-> s.metaIn[Len(s.metaIn)]]
      ELSE Rej
 
+FeedSums(s, r) == [s EXCEPT !.sha = @ \o r.ls]              \* io.Copy(&shaBuffer, archive): the copies are concatenated
 Feed(s, m, d) ==
   CASE m = "meta"  -> [s EXCEPT !.metaIn = Append(@, d)]     \* io.ReadAll(io.TeeReader(archive, metaHash)); json.Unmarshal
     [] m = "state" -> [s EXCEPT !.snapOut = Append(@, d)]    \* io.Copy(io.MultiWriter(snap, snapHash), archive)
-    [] OTHER       -> [s EXCEPT !.sha = Append(@, d)]        \* io.Copy(&shaBuffer, archive)
+    [] OTHER       -> s                                      \* SHA256SUMS: see FeedSums
 
 RECURSIVE Scan(_, _, _, _)
 Scan(a, i, s, tracks) ==
@@ -187,7 +250,7 @@ Scan(a, i, s, tracks) ==
                       ELSE IF ~HasContent(t, i)
                            THEN (IF a.empty /\ r.m = "state" THEN Scan(a, i + 1, Feed(s, r.m, "ok"), tracks) ELSE {Rej})
                       ELSE IF t[i + 1].d = "cut" THEN {Rej}
-                      ELSE LET s2 == Feed(s, r.m, t[i + 1].d) IN
+                      ELSE LET s2 == IF r.m = "sums" THEN FeedSums(s, t[i + 1]) ELSE Feed(s, r.m, t[i + 1].d) IN
                            IF i + 2 <= Len(t) /\ t[i + 2].k = "pad"
                            THEN (IF t[i + 2].d = "cut" THEN {Rej} ELSE Scan(a, i + 3, s2, tracks))   \* pad bytes are skipped unread
                            ELSE {Rej} \cup Scan(a, i + 2, s2, tracks)                                 \* pad missing: fine iff it was 0 bytes long
